@@ -241,6 +241,17 @@ def make_lm(V, spec, dtype):
         return torch.where(idx == 0, h, (h * 5 + tok + 1) % HASH_MOD)
 
     def rows_of(hs, seed, zeros):
+        if len(hs) * V > 4096:
+            # large flattened batches (size classes): the same numbers as `lm_logits_of_hash`, vectorised (int64
+            # arithmetic: h < 1000003, so h * 2654435761 < 2^52).  The oracle side (`lm_row`) keeps the scalar
+            # function, so the two evaluations check each other on every fused size-class case.
+            h = torch.tensor([int(x) for x in hs], dtype=torch.long).unsqueeze(1)
+            v = torch.arange(V, dtype=torch.long).unsqueeze(0)
+            z = (h * 2654435761 + (v + 3) * 40503 + seed * 97) % 1000003
+            val = ((z >> 3) % 17).to(torch.float64) / 4.0 - 2.0
+            if zeros:
+                val = torch.where((z % 5 == 0) & (v != h % V), torch.full_like(val, NEG), val)
+            return val.tolist()
         return [lm_logits_of_hash(int(x), V, seed, zeros) for x in hs]
 
     class HashLM(MixableSequentialLanguageModel):
@@ -585,8 +596,21 @@ class C05(PropertyCheck):
             "to 1e3 (f16) .. 1e9 (f64), deviations spread up to the dtype's exponent range (12 / 80 / 80 / 600: the "
             "smallest probabilities approach the smallest normal number), a label ruled out by -inf; a quarter of the "
             "fused tolerance cases with the language model scoring in ANOTHER floating dtype than the logits; dtype of "
-            "the result (long, long, the logits' floating dtype). T 0..7, V 1..3, width 1..50. non-trivial: width != "
-            "number of live candidates at some frame; distinct by the case JSON. "
+            "the result (long, long, the logits' floating dtype). Streams (a)-(i): T 0..7, V 1..3, width 1..50, N 1..3. "
+            "(j) SIZE CLASSES (c05_size; 8 cases per quick run, ~70 per thorough run): one or two of the sizes the code "
+            "computes with are LARGE, for every entry point (module on random scores / on {0,-inf} scores / with a fused "
+            "LM, step function driven directly on the grid k/64 incl. per-prefix extension scores and widths changing "
+            "between calls, step function from a caller-given state of K' slots): widths 32, 63, 64, 65, 100, 128, 200 x "
+            "vocabularies 3, 8, 17, 33, 64, 65, 128, 257 with K'*K'*V (the merge's one-hot) in the bands (1e3,1e4], "
+            "(1e4,65536], (65536,1e5], (1e5,3e6]; T = 64..300 with small V / width; N = 16..128 with ragged lengths; "
+            "T*N*(V+1) and T*N*K' beyond 1e4 / 1e5; N*K' beyond 1e3 / 1e4 and N*K'*(V+1) beyond 1e4 / 1e5; wide-beam "
+            "scores are drawn merge-rich (a few hot labels per frame; best of four draws by a plain-float recursion - "
+            "generator aid only).  Judged like every other case (array model call by call, recursion with the "
+            "implementation's survivors, exact oracle of the caller's scores) with the true mass by the forward algorithm "
+            "instead of the enumeration; the very largest (K' = 200, K'*K'*V > 3.2e5, tolerance runs of > 64 frames, "
+            "quick-tier volume cases) by the specification without the array model; batches of >= 16: a sample of 1-6 "
+            "elements through Lean, all elements through the predicates that need no oracle (case field `judge`). "
+            "non-trivial: width != number of live candidates at some frame; distinct by the case JSON. "
             "(CTCPrefixSearch / ctc_prefix_search_advance have no blank-index or batch_first option: blank is index V, "
             "logits are (T, N, V+1).)")
     assumptions = [
@@ -616,7 +640,20 @@ class C05(PropertyCheck):
         "dictionaries), so a module constructed at any moment with the live object's values and the same LM object is a "
         "legitimate reference for the live object's call; results are compared bit for bit (same torch, same input)",
         "true mass by enumeration of all alignments only while (V+1)^T <= 4200 (all streams except the rare longest "
-        "history runs with V=3); the prefix-beam recursion oracle is evaluated for every case",
+        "history runs with V=3 and the size classes); the prefix-beam recursion oracle is evaluated for every case",
+        "size classes: true mass of every reported prefix by the forward algorithm over the positions of the prefix "
+        "(driver glue `massPos`), cross-checked in the driver against the specification's recursion with prefix-closed "
+        "survivors (= true mass: theorem C05_closed_survivors) whenever frames x prefixes <= 1500 and against the "
+        "enumeration of all alignments on every small case; not computed for tolerance runs of more than 32 frames "
+        "(there 'never more than the true mass' rests on reported = recursion, checked, and C05_sub, proved)",
+        "size classes: the specification's recursion is evaluated with hash maps (`specStepFast`, calls the "
+        "specification's stepFn for every value), cross-checked against the literal definitions (beamStep, isTopKB) on "
+        "every case with V <= 3, width <= 50, T <= 8; the model's isTopK through isTopKFast (proved equal: C05_topk_fast)",
+        "tolerance streams: the survivors must be a top-K of the specification's candidate totals up to the tolerance "
+        "(a dropped candidate may exceed a kept one by rounding only; not evaluated for runs of more than 32 frames); "
+        "correspondence tolerance of runs of more than 8 frames: max(the fixed tolerance, (6 T + 8) eps)",
+        "large batches: the elements that do not go through Lean are judged by distinctness, order, no NaN, batched = "
+        "alone (the latter only while N*T <= 2000 and N*T*width^2 <= 1e6), the step contract of every call (same bound)",
     ]
     exhaustive = {"quick": False, "thorough": False}
     quick_budget_s = 150
@@ -1481,8 +1518,8 @@ class C05(PropertyCheck):
                 keeps.append([o["prefixes"][k] for k in range(len(o["nb"])) if not isinstance(tot_of(o, k), str)])
             e = {"len": el["len"], "frames": frames, "keeps": keeps, "model": judge["model"],
                  # is the choice of survivors a legitimate top-K of the specification's candidate totals? (needs
-                 # the total of EVERY candidate: skipped for tolerance runs of more than 64 frames)
-                 "topk": case["stream"] == "exact" or n_frames(case) <= 64}
+                 # the total of EVERY candidate: skipped for tolerance runs of more than 32 frames)
+                 "topk": case["stream"] == "exact" or n_frames(case) <= 32}
             if el.get("ext_table") is not None:
                 e["ext_table"] = el["ext_table"]
                 self.check_tables(case, el, el["ext_table"], keeps)
